@@ -48,6 +48,23 @@ fn strategy(outer_absent: bool) -> impl Strategy<Value = Case> {
 				}
 			}
 		}
+		// one case in eight: a chain of inner classes 5 ... 40 levels deep below the first top-level class, every level
+		// present (indentation in the text = depth)
+		if (26..58).contains(&tweak) {
+			if let Some((key, dst)) = m.classes.iter().find(|(k, _)| !k.contains('$')).map(|(k, c)| (k.clone(), c.names[1].clone().unwrap_or_else(|| k.clone()))) {
+				let depth = [5usize, 12, 15, 16, 17, 18, 20, 33, 40][(tweak % 9) as usize];
+				let (mut key, mut dst) = (key, dst);
+				for i in 1..=depth {
+					key = format!("{key}$d{i}");
+					dst = format!("{dst}$D{i}");
+					let mut c = crate::mapmodel::MClass { names: vec![Some(key.clone()), Some(dst.clone())], ..Default::default() };
+					if i == depth || i % 7 == 0 {
+						c.fields.insert(crate::mapmodel::MemberKey::new("deep", "I"), crate::mapmodel::MField { names: vec![Some("deep".into()), Some(format!("deepNamed{i}"))], doc: Some("at the bottom".into()) });
+					}
+					m.classes.insert(key.clone(), c);
+				}
+			}
+		}
 		Case { m, order1, order2 }
 	})
 }
@@ -208,6 +225,12 @@ fn tree(path: &std::path::Path) -> Result<BTreeMap<String, String>, String> {
 	Ok(out)
 }
 
+struct ScratchSub {
+	_keep: std::path::PathBuf,
+	path: std::path::PathBuf,
+	_s: Scratch,
+}
+
 fn directory(case: &Case, obs: &mut Obs) -> PropResult {
 	let m = &case.m;
 	let expected = norm(m);
@@ -215,6 +238,20 @@ fn directory(case: &Case, obs: &mut Obs) -> PropResult {
 	let q2 = to_quill::<2, Ns>(m, case.order2).map_err(|e| format!("harness: {e:#}"))?;
 	let s1 = Scratch::new("c12a");
 	let s2 = Scratch::new("c12b");
+	// how the directory is spelled must not matter: plain, hidden (leading dot), with a blank, named like a mapping file,
+	// ending in `.`, reached through `..`
+	let spelling = ["", "", "", ".hidden", "with space", "a.mapping", "sub/.", "x/../y", ".a/.b", "enigma.d"][(case.order1 % 10) as usize];
+	obs.label(format!("directory_spelled:{}", if spelling.is_empty() { "plain" } else { spelling }));
+	let (s1, s2) = (ScratchSub { _keep: s1.path.clone(), path: s1.path.join(spelling), _s: s1 }, ScratchSub { _keep: s2.path.clone(), path: s2.path.join(spelling), _s: s2 });
+	for s in [&s1, &s2] {
+		for d in ["x", "y", "sub", ".a/.b"] {
+			let _ = std::fs::create_dir_all(s._keep.join(d));
+		}
+		let _ = std::fs::create_dir_all(&s.path);
+		if !s.path.is_dir() {
+			return Err(format!("harness: cannot create scratch directory {:?}", s.path));
+		}
+	}
 	quill::enigma_dir::write(&q1, &s1.path).map_err(|e| format!("enigma_dir::write failed: {e:#}"))?;
 	quill::enigma_dir::write(&q2, &s2.path).map_err(|e| format!("enigma_dir::write failed: {e:#}"))?;
 	let t1 = tree(&s1.path)?;
